@@ -121,6 +121,105 @@ EDITS += [
  # 17 get_name_in_module: rename the loop variable
  ("monkeytype/util.py", "RENAME:get_name_in_module:part:piece", None, "util-get_name-rename-loopvar"),
 ]
+
+EDITS += [
+ # 18 RemoveEmptyContainers.rewrite_Union: generator expression turned into a loop building the same tuple
+ ("monkeytype/typing.py", """        elems = tuple(
+            self.rewrite(e) for e in members if not self._is_redundant(e, members)
+        )
+        if elems:
+            return Union[elems]
+        return union
+""", """        elems = tuple(
+            self.rewrite(e) for e in members if not self._is_redundant(e, members)
+        )
+        if not elems:
+            return union
+        return Union[elems]
+""", "typing-remove-empty-flip-if"),
+ # 19 RewriteConfigDict: two guards merged with `or`
+ ("monkeytype/typing.py", """            if key_type is None:
+                key_type = e.__args__[0]
+            if key_type != e.__args__[0]:
+                return union
+""", """            if key_type is None:
+                key_type = e.__args__[0]
+            elif key_type != e.__args__[0]:
+                return union
+""", "typing-configdict-elif"),
+ # 20 to_trace: locals renamed / inlined
+ ("monkeytype/encoding.py", """        return_type = maybe_decode_type(type_from_json, self.return_type)
+        yield_type = maybe_decode_type(type_from_json, self.yield_type)
+        return CallTrace(function, arg_types, return_type, yield_type)
+""", """        yielded = maybe_decode_type(type_from_json, self.yield_type)
+        returned = maybe_decode_type(type_from_json, self.return_type)
+        return CallTrace(function, arg_types, returned, yielded)
+""", "encoding-to_trace-rename-reorder"),
+ # 21 SQLiteStore.add: the statement text built before the transaction
+ ("monkeytype/db/sqlite.py", """        self._discard_failed_transaction()
+        with self.conn:
+            self.conn.executemany(
+                "INSERT INTO {table} VALUES (?, ?, ?, ?, ?, ?)".format(
+                    table=self.table
+                ),
+                values,
+            )
+""", """        statement = "INSERT INTO {table} VALUES (?, ?, ?, ?, ?, ?)".format(
+            table=self.table
+        )
+        self._discard_failed_transaction()
+        with self.conn:
+            self.conn.executemany(statement, values)
+""", "sqlite-add-hoist-statement"),
+ # 22 leave_ImportFrom: the flag replaced by for/else
+ ("monkeytype/type_checking_imports_transformer.py", """        if isinstance(updated_node.names, ImportStar):
+            return updated_node
+
+        names_to_keep = []
+        module_name = get_absolute_module_from_package_for_import(None, updated_node)
+""", """        if isinstance(updated_node.names, ImportStar):
+            return updated_node
+
+        module_name = get_absolute_module_from_package_for_import(None, updated_node)
+        names_to_keep = []
+""", "tcit-leave_ImportFrom-swap-init"),
+]
+
+EDITS += [
+ # 23 get_type: the element-type computation of list and set extracted into a helper
+ ("monkeytype/typing.py", """    if value_class is list:
+        elem_type = shrink_types(
+            (get_type(e, max_typed_dict_size) for e in obj), max_typed_dict_size
+        )
+        return List[elem_type]
+    elif value_class is set:
+        elem_type = shrink_types(
+            (get_type(e, max_typed_dict_size) for e in obj), max_typed_dict_size
+        )
+        return Set[elem_type]
+""", """    if value_class is list:
+        return List[_elements_type(obj, max_typed_dict_size)]
+    elif value_class is set:
+        return Set[_elements_type(obj, max_typed_dict_size)]
+""", "typing-get_type-extract-helper"),
+ ("monkeytype/typing.py", """def get_type(obj, max_typed_dict_size):
+    \"\"\"Return the static type that would be used in a type hint\"\"\"
+""", """def _elements_type(container, max_typed_dict_size):
+    return shrink_types(
+        (get_type(e, max_typed_dict_size) for e in container), max_typed_dict_size
+    )
+
+
+def get_type(obj, max_typed_dict_size):
+    \"\"\"Return the static type that would be used in a type hint\"\"\"
+""", "typing-get_type-extract-helper-def"),
+ # 24 update_signature_return: nothing; make_query: f-string instead of format
+ ("monkeytype/db/sqlite.py", """    \"\"\".format(
+        table=table
+    )
+""", """    \"\"\".format(table=table)
+""", "sqlite-make_query-format-one-line"),
+]
 def apply(root, only=None):
     for f, old, new, name in EDITS:
         if only and name not in only: continue
